@@ -1247,7 +1247,10 @@ PROPS = {
               "interpolate<Arch, order, exact recording solver>: orders 1..4 (quick) / 1..5, 2..8 nodes as windows of a larger grid, "
               "uniform / irregular / tiny / offset spacing, default and random user boundary sets; the assembled dense system M, b is "
               "compared entry by entry with the model's rows, the resulting spline coefficient by coefficient, values at the nodes "
-              "and end-point derivatives through Apply(Der d) + evaluation"),
+              "and end-point derivatives through Apply(Der d) + evaluation; double tier: interpolateUsingEigen<double, order> on dyadic inputs, its "
+              "coefficients (converted exactly) inserted into the exactly assembled system of the model: normwise backward error "
+              "||Mc-b|| <= 2^20 eps (||M|| ||c|| + ||b||)", extra_stages=[stages.stage_fp_interp],
+              explanation="proof relative to the solver: holds for every solution of the assembled system; the bundled dense solver is validated, not modelled"),
     'C15': _p(gen_C15, nontrivial_C15,
               "all ordered pairs of windows on a 5-point grid (second operand on a distinct-but-equal grid object), coefficient "
               "patterns with zero pieces (probability 0.3-0.4), identical coefficients on identical windows: isZero, checkOverlap both "
